@@ -74,6 +74,9 @@ var tokenPool = []string{"{", "}", "(", ")", "[", "]", ":", "!", "=", "@", "$", 
 	"Entity", "U", "In", "Color", "Int", "String", "RED", "skip", "include", "if", "tag", "__typename", "__schema", "__type", "name", "fields", "enumValues", "includeDeprecated", "(includeDeprecated: null)", "(includeDeprecated: $v)", "(name: null)", "(name: $x)", "inputFields", "ofType", "args", "defaultValue", "i", "in", "l", "ll", "x", "y",
 	"2147483647", "2147483648", "-2147483649", "-0", "0", "1e400", "9223372036854775808", "1.5", "00", "1.", ".5", "-", "1e", "0x1F",
 	`""`, `"a"`, `"\u0000"`, `"\uD800"`, `"\uZZZZ"`, `"\x"`, `"unterminated`, `""""""`, `"""a\"""b"""`, `"""`, "#c\n", "\ufeff", "\r", "\u2028", "\x00", "\xff", "\xc3", "\ufffd", "é", "😀",
+	// syntax of later editions of the specification and constructs cut off in the middle: whatever the scanner and
+	// parser make of them, they must return
+	`"\u{1F600}"`, `"\u{1F60`, `"\u{`, `"\u{}"`, `"\u{110000}"`, `"\u12`, `"\`, `"""\`, `"""a`, "#", "..", ".", "1e+", "-.", "&", "extend", "repeatable", "<", ">", "%", "\\", "`", "~",
 	"$v", "$w", "$i", "$in", "$x", "$undefined", "query($v: Obj = 1)", "($q: [Obj!] = [{int: 1}])", "$v: Entity = {id: 1}", "$e: Color = 1", "$u: U", "= 1", "= {b: 1}", "= [[1]]", ": Obj", ": [U!]!", "F", "G", "...F", "... on Obj", "... on Entity", "@skip(if: $v)", "@include(if: null)", "@skip", "@tag(n: $i)", "(x: null)", "(i: $in)", "[$i]", "{a: $i}", "{b: null}"}
 
 var jsonPool = []string{`null`, `true`, `false`, `0`, `1`, `-1`, `2147483647`, `2147483648`, `-2147483649`, `1.5`, `1e3`, `1e400`, `9007199254740993`, `123456789012345678901234567890`,
@@ -137,8 +140,16 @@ func genCase(seed int64, idx int) Case {
 	case r.Chance(1, 25):
 		c.Kind = "cyclic"
 		q = genCyclic(r)
-	case k < 10:
+	case k < 7:
 		c.Kind = "seed"
+	case k < 10:
+		// the text ends in the middle of a construct: a prefix of a seed query, half of the time followed by one
+		// more token from the pool (so that every unterminated opener also occurs last in the text)
+		c.Kind = "prefix"
+		q = q[:r.Intn(len(q)+1)]
+		if r.Bool() {
+			q += hx.Pick(r, tokenPool)
+		}
 	case k < 48:
 		c.Kind = "tokmut"
 		toks := tokRe.FindAllString(q, -1)
